@@ -58,6 +58,42 @@ func directSearch(s search.Search, zt *board.ZobristTable, h gen.Hist, depth int
 
 // analyze drives an engine: set up the game, analyse to the depth limit, return the PV stream.
 func analyze(ctx context.Context, e *engine.Engine, h gen.Hist, depth int) ([]searchResult, string, error) {
+	return analyzeWith(ctx, e, h, depth, nil)
+}
+
+// userActivity plays and takes back moves on a board obtained from Engine.Board() (a fork the API hands
+// to its caller) until stop is closed. It never takes back below the fork point.
+func userActivity(b *board.Board, stop <-chan struct{}, seed int64) {
+	r := rand.New(rand.NewSource(seed))
+	depth := 0
+	for {
+		select {
+		case <-stop:
+			for ; depth > 0; depth-- {
+				b.PopMove()
+			}
+			return
+		default:
+		}
+		if depth > 0 && (depth >= 6 || r.Intn(3) == 0) {
+			b.PopMove()
+			depth--
+			continue
+		}
+		ms := b.Position().PseudoLegalMoves(b.Turn())
+		if len(ms) == 0 {
+			continue
+		}
+		if b.PushMove(ms[r.Intn(len(ms))]) {
+			depth++
+			b.LastMove()
+			b.HasMoved(4)
+		}
+	}
+}
+
+// analyzeWith is analyze with user-side activity on a fork of the engine's board while the search runs.
+func analyzeWith(ctx context.Context, e *engine.Engine, h gen.Hist, depth int, during func(b *board.Board, stop <-chan struct{})) ([]searchResult, string, error) {
 	if err := e.Reset(ctx, h.Start.FEN()); err != nil {
 		return nil, "", err
 	}
@@ -68,6 +104,15 @@ func analyze(ctx context.Context, e *engine.Engine, h gen.Hist, depth int) ([]se
 	}
 	posBefore := e.Position()
 	snapBefore := adapt.TakeSnap(e.Board())
+	var stop chan struct{}
+	var udone chan struct{}
+	if during != nil {
+		ub := e.Board()
+		stop, udone = make(chan struct{}), make(chan struct{})
+		go func() { defer close(udone); during(ub, stop) }()
+		defer func() { <-udone }()
+		defer close(stop)
+	}
 	out, err := e.Analyze(ctx, searchctl.Options{DepthLimit: lang.Some(uint(depth))})
 	if err != nil {
 		return nil, "", err
@@ -210,6 +255,20 @@ func runC18(c *fw.Ctx, cs fw.Case) {
 					c.Violate("determinism:engine-repeat", "engine result after an unrelated analysis differs: %s: %s", d, what)
 				}
 			}
+			// the same engine with a hash table: every Reset starts from a fresh table, so a repetition
+			// after an unrelated analysis must look exactly like the first run
+			{
+				he := rc.newEngine(ctx, engine.Options{Depth: uint(depth), Hash: 1}, 0, nil)
+				first, _, err1 := analyze(ctx, he, h, depth)
+				analyze(ctx, he, oh, od)
+				second, _, err2 := analyze(ctx, he, h, depth)
+				c.Count("engine_table_reset_checks", 1)
+				if err1 == nil && err2 == nil {
+					if d := streamDiff(first, second, true); d != "" {
+						c.Violate("determinism:table-carried-over", "same analysis on the same engine after a reset differs (hash table on): %s: %s", d, what)
+					}
+				}
+			}
 			// different zobrist seed
 			other, _, err := analyze(ctx, rc.newEngine(ctx, engine.Options{Depth: uint(depth)}, 12345+cs.Seed, nil), h, depth)
 			c.Count("engine_seed_checks", 1)
@@ -286,7 +345,8 @@ func runC18(c *fw.Ctx, cs fw.Case) {
 			go func() {
 				defer wg.Done()
 				<-start
-				loaded, _, lerr = analyze(ctx, rc.newEngine(ctx, engine.Options{Depth: uint(depth)}, 0, nil), h, depth)
+				loaded, _, lerr = analyzeWith(ctx, rc.newEngine(ctx, engine.Options{Depth: uint(depth)}, 0, nil), h, depth,
+					func(b *board.Board, stop <-chan struct{}) { userActivity(b, stop, cs.Seed) })
 			}()
 			close(start)
 			wg.Wait()
